@@ -38,7 +38,7 @@ theorem isIterable_untyped (M : Model) {t : Ty} (h : t.untyped = true) : isItera
 theorem methodCall_untyped (M : Model) (fuel : Nat) (G : Gamma) (st : FSt) {objTy : Ty} (recv : Expr) (m : String)
     (args : List Expr) (kwn : List String) (kwv : List Expr) (r : FRes) (h : objTy.untyped = true)
     (hr : methodCall M fuel G st objTy recv m args kwn kwv = .ok r) :
-    r.e = .call (.attr recv m) args kwn kwv ∧ r.ty = .any ∧ r.st = st := by
+    r.e = .call (.attr recv m) args kwn kwv ∧ r.ty = .any ∧ r.st = st ∧ r.elts = [] := by
   cases fuel with
   | zero => simp [methodCall] at hr
   | succ fuel =>
@@ -52,7 +52,7 @@ theorem methodCall_untyped (M : Model) (fuel : Nat) (G : Gamma) (st : FSt) {objT
       | succ k2 =>
         simp only [candLoop, bind, Except.bind, pure, Except.pure, Except.ok.injEq] at hr
         subst hr
-        exact ⟨rfl, rfl, rfl⟩
+        exact ⟨rfl, rfl, rfl, rfl⟩
 
 theorem untyped_dcField {t : Ty} (h : t.untyped = true) {k : String} {u : Ty} (hk : dcField k t = some u) : u.untyped = true := by
   cases t <;> simp [dcField] at hk
@@ -139,10 +139,12 @@ theorem noFuncCallL_mem (M : Model) {es : List Expr} (h : noFuncCallL M es = tru
 
 /-- what the follower guarantees on an untyped expression -/
 def Inert (e : Expr) (st : FSt) (r : Except Err FRes) : Prop :=
-  ∀ x, r = .ok x → x.e = e ∧ x.ty.untyped = true ∧ x.st = st
+  ∀ x, r = .ok x → x.e = e ∧ x.ty.untyped = true ∧ x.st = st ∧ (∀ t ∈ x.elts, t.untyped = true)
 
 def InertL (es : List Expr) (st : FSt) (r : Except Err (List (Expr × Ty) × FSt)) : Prop :=
   ∀ rs st', r = .ok (rs, st') → rs.map (·.1) = es ∧ (∀ t ∈ rs.map (·.2), t.untyped = true) ∧ st' = st
+
+theorem nil_untyped : ∀ t ∈ ([] : List Ty), t.untyped = true := by intro t ht; cases ht
 
 theorem follow_untyped (M : Model) : ∀ fuel : Nat,
     (∀ G st e, GammaU G → noFuncCall M e = true → Inert e st (follow M fuel G st e)) ∧
@@ -161,17 +163,17 @@ theorem follow_untyped (M : Model) : ∀ fuel : Nat,
       | name y =>
         simp only [follow] at h
         split at h
-        · rename_i t ht; cases h; exact ⟨rfl, hG y t ht, rfl⟩
-        · split at h <;> cases h <;> exact ⟨rfl, rfl, rfl⟩
-      | const k => simp only [follow, Except.ok.injEq] at h; subst h; exact ⟨rfl, untyped_constTy k, rfl⟩
-      | lam ps b => simp only [follow, Except.ok.injEq] at h; subst h; exact ⟨rfl, rfl, rfl⟩
+        · rename_i t ht; cases h; exact ⟨rfl, hG y t ht, rfl, nil_untyped⟩
+        · split at h <;> cases h <;> exact ⟨rfl, rfl, rfl, nil_untyped⟩
+      | const k => simp only [follow, Except.ok.injEq] at h; subst h; exact ⟨rfl, untyped_constTy k, rfl, nil_untyped⟩
+      | lam ps b => simp only [follow, Except.ok.injEq] at h; subst h; exact ⟨rfl, rfl, rfl, nil_untyped⟩
       | attr v a =>
         simp only [noFuncCall] at hn
         simp only [follow] at h
         cases hv : follow M fuel G st v with
         | error e => simp [hv, bind, Except.bind] at h
         | ok r =>
-          obtain ⟨he, ht, hs⟩ := ihS G st v hG hn r hv
+          obtain ⟨he, ht, hs, hel⟩ := ihS G st v hG hn r hv
           simp only [hv, bind, Except.bind] at h
           split at h
           · rename_i ks vs hd
@@ -183,57 +185,39 @@ theorem follow_untyped (M : Model) : ∀ fuel : Nat,
               | some i =>
                 simp only [] at h
                 split at h
-                · rename_i ve hve
-                  cases hv2 : follow M fuel G r.st ve with
-                  | error e => simp [hv2] at h
-                  | ok rv =>
-                    simp only [hv2, pure, Except.pure, Except.ok.injEq] at h
-                    subst h
-                    have hmem : ve ∈ vs := List.mem_of_getElem? hve
-                    have hnv : noFuncCall M ve = true := by
-                      rw [he] at hd; subst hd
-                      simp only [noFuncCall, Bool.and_eq_true] at hn
-                      exact noFuncCallL_mem M hn.2 hmem
-                    obtain ⟨_, ht2, _⟩ := ihS G r.st ve hG hnv rv hv2
-                    exact ⟨by rw [he], ht2, hs⟩
+                · rename_i t _ hti _
+                  simp only [pure, Except.pure, Except.ok.injEq] at h
+                  subst h
+                  exact ⟨by rw [he], hel t (List.mem_of_getElem? hti), hs, nil_untyped⟩
                 · cases h
               | none =>
                 simp only [] at h
                 split at h
-                · simp only [pure, Except.pure, Except.ok.injEq] at h; subst h; exact ⟨by rw [he], rfl, hs⟩
+                · simp only [pure, Except.pure, Except.ok.injEq] at h; subst h; exact ⟨by rw [he], rfl, hs, nil_untyped⟩
                 · cases h
           · split at h
             · split at h
               · rename_i t hf
                 simp only [pure, Except.pure, Except.ok.injEq] at h; subst h
-                exact ⟨by rw [he], untyped_dcField ht hf, hs⟩
+                exact ⟨by rw [he], untyped_dcField ht hf, hs, nil_untyped⟩
               · cases h
-            · simp only [pure, Except.pure, Except.ok.injEq] at h; subst h; exact ⟨by rw [he], rfl, hs⟩
+            · simp only [pure, Except.pure, Except.ok.injEq] at h; subst h; exact ⟨by rw [he], rfl, hs, nil_untyped⟩
       | sub v s =>
         simp only [noFuncCall, Bool.and_eq_true] at hn
         simp only [follow] at h
         cases hv : follow M fuel G st v with
         | error e => simp [hv, bind, Except.bind] at h
         | ok rv =>
-          obtain ⟨he, ht, hs⟩ := ihS G st v hG hn.1 rv hv
+          obtain ⟨he, ht, hs, hel⟩ := ihS G st v hG hn.1 rv hv
           simp only [hv, bind, Except.bind] at h
           cases hs2 : follow M fuel G rv.st s with
           | error e => simp [hs2] at h
           | ok rs =>
-            obtain ⟨he2, ht2, hst2⟩ := ihS G rv.st s hG hn.2 rs hs2
+            obtain ⟨he2, ht2, hst2, _⟩ := ihS G rv.st s hG hn.2 rs hs2
             simp only [hs2] at h
-            have hfin : ∀ (ty : Ty), ty.untyped = true → x = ⟨.sub rv.e rs.e, ty, rs.st⟩ →
-                x.e = .sub v s ∧ x.ty.untyped = true ∧ x.st = st := by
-              intro ty hty hx; subst hx; exact ⟨by simp only [he, he2], hty, by rw [hst2, hs]⟩
-            -- an element of a tuple literal
-            have hel : ∀ elts el, rv.e = .tuple elts → el ∈ elts → ∀ re, follow M fuel G rs.st el = .ok re →
-                re.ty.untyped = true := by
-              intro elts el hd hm re hre
-              have hnel : noFuncCall M el = true := by
-                rw [he] at hd; subst hd
-                simp only [noFuncCall] at hn
-                exact noFuncCallL_mem M hn.1 hm
-              exact (ihS G rs.st el hG hnel re hre).2.1
+            have hfin : ∀ (ty : Ty), ty.untyped = true → x = ⟨.sub rv.e rs.e, ty, rs.st, []⟩ →
+                x.e = .sub v s ∧ x.ty.untyped = true ∧ x.st = st ∧ (∀ t ∈ x.elts, t.untyped = true) := by
+              intro ty hty hx; subst hx; exact ⟨by simp only [he, he2], hty, by rw [hst2, hs], nil_untyped⟩
             split at h
             · rename_i elts hd
               repeat' (split at h)
@@ -241,7 +225,7 @@ theorem follow_untyped (M : Model) : ∀ fuel : Nat,
               all_goals (
                 simp only [pure, Except.pure, Except.ok.injEq] at h
                 refine hfin _ ?_ h.symm
-                exact hel _ _ hd (List.mem_of_getElem? (by assumption)) _ (by assumption))
+                exact hel _ (List.mem_of_getElem? (by assumption)))
             · repeat' (split at h)
               all_goals (try (cases h; done))
               all_goals (
@@ -257,9 +241,9 @@ theorem follow_untyped (M : Model) : ∀ fuel : Nat,
         | error e => simp [hl, bind, Except.bind] at h
         | ok r =>
           obtain ⟨rs, st'⟩ := r
-          obtain ⟨h1, _, h3⟩ := ihL G st es hG hn rs st' hl
+          obtain ⟨h1, h2, h3⟩ := ihL G st es hG hn rs st' hl
           simp only [hl, bind, Except.bind, pure, Except.pure, Except.ok.injEq] at h
-          subst h; exact ⟨by simp only [h1], rfl, h3⟩
+          subst h; exact ⟨by simp only [h1], rfl, h3, h2⟩
       | list es =>
         simp only [noFuncCall] at hn
         simp only [follow] at h
@@ -269,7 +253,7 @@ theorem follow_untyped (M : Model) : ∀ fuel : Nat,
           obtain ⟨rs, st'⟩ := r
           obtain ⟨h1, _, h3⟩ := ihL G st es hG hn rs st' hl
           simp only [hl, bind, Except.bind, pure, Except.pure, Except.ok.injEq] at h
-          subst h; exact ⟨by simp only [h1], rfl, h3⟩
+          subst h; exact ⟨by simp only [h1], rfl, h3, nil_untyped⟩
       | dict ks vs =>
         simp only [noFuncCall, Bool.and_eq_true] at hn
         simp only [follow] at h
@@ -290,7 +274,7 @@ theorem follow_untyped (M : Model) : ∀ fuel : Nat,
             | ok kv =>
               simp only [hkv, pure, Except.pure, Except.ok.injEq] at h
               subst h
-              exact ⟨by simp only [h1, g1], untyped_mkDictTy kv _ g2, by rw [g3, h3]⟩
+              exact ⟨by simp only [h1, g1], untyped_mkDictTy kv _ g2, by rw [g3, h3], g2⟩
       | op k args =>
         simp only [noFuncCall] at hn
         simp only [follow] at h
@@ -300,9 +284,9 @@ theorem follow_untyped (M : Model) : ∀ fuel : Nat,
           obtain ⟨rs, st'⟩ := r
           obtain ⟨h1, h2, h3⟩ := ihL G st args hG hn rs st' hl
           simp only [hl, bind, Except.bind] at h
-          have hfin : ∀ (ty : Ty), ty.untyped = true → x = ⟨.op k (rs.map (·.1)), ty, st'⟩ →
-              x.e = .op k args ∧ x.ty.untyped = true ∧ x.st = st := by
-            intro ty hty hx; subst hx; exact ⟨by simp only [h1], hty, h3⟩
+          have hfin : ∀ (ty : Ty), ty.untyped = true → x = ⟨.op k (rs.map (·.1)), ty, st', []⟩ →
+              x.e = .op k args ∧ x.ty.untyped = true ∧ x.st = st ∧ (∀ t ∈ x.elts, t.untyped = true) := by
+            intro ty hty hx; subst hx; exact ⟨by simp only [h1], hty, h3, nil_untyped⟩
           repeat' (split at h)
           all_goals (try (cases h; done))
           all_goals (
@@ -318,17 +302,17 @@ theorem follow_untyped (M : Model) : ∀ fuel : Nat,
         cases h1 : follow M fuel G st el with
         | error e => simp [h1, bind, Except.bind] at h
         | ok r1 =>
-          obtain ⟨a1, _, a3⟩ := ihS G st el hG hn.1.1.1 r1 h1
+          obtain ⟨a1, _, a3, _⟩ := ihS G st el hG hn.1.1.1 r1 h1
           simp only [h1, bind, Except.bind] at h
           cases h2 : follow M fuel G r1.st t with
           | error e => simp [h2] at h
           | ok r2 =>
-            obtain ⟨b1, _, b3⟩ := ihS G r1.st t hG hn.1.1.2 r2 h2
+            obtain ⟨b1, _, b3, _⟩ := ihS G r1.st t hG hn.1.1.2 r2 h2
             simp only [h2] at h
             cases h3 : follow M fuel G r2.st i with
             | error e => simp [h3] at h
             | ok r3 =>
-              obtain ⟨c1, _, c3⟩ := ihS G r2.st i hG hn.1.2 r3 h3
+              obtain ⟨c1, _, c3, _⟩ := ihS G r2.st i hG hn.1.2 r3 h3
               simp only [h3] at h
               cases h4 : followL M fuel G r3.st ifs with
               | error e => simp [h4] at h
@@ -337,7 +321,7 @@ theorem follow_untyped (M : Model) : ∀ fuel : Nat,
                 obtain ⟨d1, _, d3⟩ := ihL G r3.st ifs hG hn.2 rs st' h4
                 simp only [h4, pure, Except.pure, Except.ok.injEq] at h
                 subst h
-                exact ⟨by simp only [a1, b1, c1, d1], rfl, by rw [d3, c3, b3, a3]⟩
+                exact ⟨by simp only [a1, b1, c1, d1], rfl, by rw [d3, c3, b3, a3], nil_untyped⟩
       | call f args kwn kwv =>
         simp only [noFuncCall, Bool.and_eq_true] at hn
         obtain ⟨⟨⟨hnf, hna⟩, hnk⟩, hnm⟩ := hn
@@ -345,7 +329,7 @@ theorem follow_untyped (M : Model) : ∀ fuel : Nat,
         cases hf : follow M fuel G st f with
         | error e => simp [hf, bind, Except.bind] at h
         | ok rf =>
-          obtain ⟨f1, _, f3⟩ := ihS G st f hG hnf rf hf
+          obtain ⟨f1, _, f3, _⟩ := ihS G st f hG hnf rf hf
           simp only [hf, bind, Except.bind] at h
           cases ha : followL M fuel G rf.st args with
           | error e => simp [ha] at h
@@ -361,9 +345,9 @@ theorem follow_untyped (M : Model) : ∀ fuel : Nat,
               simp only [hk] at h
               have hst2 : st2 = st := by rw [k3, a3, f3]
               have hfin : ∀ (ty : Ty), ty.untyped = true →
-                  x = ⟨.call rf.e (as'.map (·.1)) kwn (ks'.map (·.1)), ty, st2⟩ →
-                  x.e = .call f args kwn kwv ∧ x.ty.untyped = true ∧ x.st = st := by
-                intro ty hty hx; subst hx; exact ⟨by simp only [f1, a1, k1], hty, hst2⟩
+                  x = ⟨.call rf.e (as'.map (·.1)) kwn (ks'.map (·.1)), ty, st2, []⟩ →
+                  x.e = .call f args kwn kwv ∧ x.ty.untyped = true ∧ x.st = st ∧ (∀ t ∈ x.elts, t.untyped = true) := by
+                intro ty hty hx; subst hx; exact ⟨by simp only [f1, a1, k1], hty, hst2, nil_untyped⟩
               rw [f1] at h
               cases f with
               | attr recv m =>
@@ -372,10 +356,10 @@ theorem follow_untyped (M : Model) : ∀ fuel : Nat,
                 cases hr : follow M fuel G st recv with
                 | error e => simp [hr] at h
                 | ok rr =>
-                  obtain ⟨_, r2, _⟩ := ihS G st recv hG hnf rr hr
+                  obtain ⟨_, r2, _, _⟩ := ihS G st recv hG hnf rr hr
                   simp only [hr] at h
-                  obtain ⟨m1, m2, m3⟩ := methodCall_untyped M fuel G st2 recv m _ kwn _ x r2 h
-                  exact ⟨by rw [m1]; simp only [a1, k1], by rw [m2]; rfl, by rw [m3, hst2]⟩
+                  obtain ⟨m1, m2, m3, m4⟩ := methodCall_untyped M fuel G st2 recv m _ kwn _ x r2 h
+                  exact ⟨by rw [m1]; simp only [a1, k1], by rw [m2]; rfl, by rw [m3, hst2], by rw [m4]; exact nil_untyped⟩
               | name n =>
                 simp only [] at h
                 simp only [Bool.not_eq_true'] at hnm
@@ -395,7 +379,7 @@ theorem follow_untyped (M : Model) : ∀ fuel : Nat,
                   cases hr : follow M fuel G st recv with
                   | error e => simp [hr] at h
                   | ok rr =>
-                    obtain ⟨_, r2, _⟩ := ihS G st recv hG hnf.1 rr hr
+                    obtain ⟨_, r2, _, _⟩ := ihS G st recv hG hnf.1 rr hr
                     simp only [hr] at h
                     split at h
                     · simp only [pure, Except.pure, Except.ok.injEq] at h
@@ -418,10 +402,10 @@ theorem follow_untyped (M : Model) : ∀ fuel : Nat,
                 | ok rb =>
                   have hG' : GammaU (lamArgTys ps (as'.map (·.2)) kwn (ks'.map (·.2)) ++ G) :=
                     gammaU_append (lamArgTys_untyped ps _ kwn _ a2 k2) hG
-                  obtain ⟨b1, b2, b3⟩ := ihS _ st2 body hG' hnf rb hb
+                  obtain ⟨b1, b2, b3, _⟩ := ihS _ st2 body hG' hnf rb hb
                   simp only [hb, pure, Except.pure, Except.ok.injEq] at h
                   subst h
-                  exact ⟨by simp only [b1, a1, k1], b2, by rw [b3, hst2]⟩
+                  exact ⟨by simp only [b1, a1, k1], b2, by rw [b3, hst2], nil_untyped⟩
               | const c => simp only [pure, Except.pure, Except.ok.injEq] at h; rw [← f1] at h; exact hfin _ rfl h.symm
               | tuple es => simp only [pure, Except.pure, Except.ok.injEq] at h; rw [← f1] at h; exact hfin _ rfl h.symm
               | list es => simp only [pure, Except.pure, Except.ok.injEq] at h; rw [← f1] at h; exact hfin _ rfl h.symm
@@ -441,7 +425,7 @@ theorem follow_untyped (M : Model) : ∀ fuel : Nat,
         cases he : follow M fuel G st e with
         | error x => simp [he, bind, Except.bind] at h
         | ok r =>
-          obtain ⟨e1, e2, e3⟩ := ihS G st e hG hn.1 r he
+          obtain ⟨e1, e2, e3, _⟩ := ihS G st e hG hn.1 r he
           simp only [he, bind, Except.bind] at h
           cases hr : followL M fuel G r.st rest with
           | error x => simp [hr] at h
@@ -474,7 +458,7 @@ theorem streamOp_untyped_identity (M : Model) (op : String) (itemTy : Ty) (x : S
       split at hy
       · cases hy; exact hi
       · cases hy
-    obtain ⟨b1, _, b3⟩ := (follow_untyped M (followFuel body)).1 _ _ body hG hn rb hb
+    obtain ⟨b1, _, b3, _⟩ := (follow_untyped M (followFuel body)).1 _ _ body hG hn rb hb
     simp only [hb, bind, Except.bind] at h
     cases hc : checkAst (.lam [x] rb.e) with
     | error e => simp [hc] at h
